@@ -146,12 +146,14 @@ package log
 // segment's fields, its mapped bytes and its durable image only, so writing to one segment cannot
 // disturb another (SegSep). Mentioned for a concrete segment, its definition is unfolded.
 //@ opaque SegGood(s *segment) bool reads s.n, s.size, s.synced, s.file, s.file.Data, bytesof(s.file.Data), s.file.gdur = s.file != nil && SegInv(s) && CrashOK(s)
-//@ pure SegOK(l *Log, x *segment) bool = SegGood(x) && (x.prev != nil ==> l.gin[ref(x.prev)] && x.prev.next == x && x.prev.prevIndex + x.prev.n == x.prevIndex && x.prev.n > 0) && (x.next != nil ==> l.gin[ref(x.next)] && x.next.prev == x && x.synced == x.n && x.next.gord == x.gord + 1) && l.first.gord <= x.gord && x.gord <= l.last.gord && (x.prev == nil ==> x == l.first) && (x.next == nil ==> x == l.last) && x.prevIndex + x.n < 18446744073709551615
+//@ pure SegOK3(f *segment, la *segment, S map[uint64]bool, x *segment) bool = SegGood(x) && (x.prev != nil ==> S[ref(x.prev)] && x.prev.next == x && x.prev.prevIndex + x.prev.n == x.prevIndex && x.prev.n > 0) && (x.next != nil ==> S[ref(x.next)] && x.next.prev == x && x.synced == x.n && x.next.gord == x.gord + 1) && f.gord <= x.gord && x.gord <= la.gord && (x.prev == nil ==> x == f) && (x.next == nil ==> x == la) && x.prevIndex + x.n < 18446744073709551615
+//@ pure SegOK(l *Log, x *segment) bool = SegOK3(l.first, l.last, l.gin, x)
 // segment.gord: ghost position of the segment in the list (consecutive along next, distinct), so that a walk
 // from first to last provably visits every element of the ghost set gin
 //@ ghost field segment.gord int
 //@ pure SegSep(x *segment, y *segment) bool = x.file != y.file && arrof(x.file.Data) != arrof(y.file.Data) && x.gord != y.gord
-//@ pure LogShape(l *Log) bool = l.first != nil && l.last != nil && InList(l, l.first) && InList(l, l.last) && l.first.prev == nil && l.last.next == nil && SegGood(l.first) && SegGood(l.last) && forall(x, l.gin[x] ==> x != 0 && allocated(x) && SegOK(l, x)) && forall(x, y, l.gin[x] && l.gin[y] && x != y ==> SegSep(x, y))
+//@ pure ListShape(f *segment, la *segment, S map[uint64]bool) bool = f != nil && la != nil && S[ref(f)] && S[ref(la)] && f.prev == nil && la.next == nil && SegGood(f) && SegGood(la) && forall(x, S[x] ==> x != 0 && allocated(x) && SegOK3(f, la, S, x)) && forall(x, y, S[x] && S[y] && x != y ==> SegSep(x, y))
+//@ pure LogShape(l *Log) bool = ListShape(l.first, l.last, l.gin)
 //@ pure LogPrev(l *Log) uint64 = ite(l.index == nil, l.first.prevIndex, l.index[0])
 //@ pure LogLast(l *Log) uint64 = ite(l.index == nil, l.last.prevIndex + l.last.n, l.index[1])
 //@ pure SegHolds(x *segment, i uint64, b []byte) bool = x.prevIndex < i && i <= x.prevIndex + x.n && arrof(b) == arrof(x.file.Data) && base(b) == base(x.file.Data) + soff(x, i - x.prevIndex) && len(b) == soff(x, i - x.prevIndex + 1) - soff(x, i - x.prevIndex)
